@@ -208,11 +208,65 @@ def root_full_case(ctx, R, rng, FatFileSystem, ft, free_slots, how=0):
             pass
 
 
+def same_object_recovery(ctx, R, rng, FatFileSystem):
+    """'after space is freed the volume is fully usable again', the way an application does it: ONE path object creates the
+    file, writes through the handle until ENOSPC, and is then used to unlink it; afterwards every cluster the failed write took
+    must be free again, the structural check clean, and a file of the size that failed must now fit"""
+    import errno
+    for ft, fsinfo in (('fat12', False), ('fat16', False), ('fat32', True)):
+        for where in ('', 'sub/'):
+            for free in (1, 3):
+                g, b, t = make(rng, ft, free, 0, fsinfo)
+                buf = bytearray(b.img)
+                with warnings.catch_warnings():
+                    warnings.simplefilter('ignore')
+                    fs = FatFileSystem(memoryview(buf))
+                try:
+                    free_before = sum(1 for c in range(2, g.n_clusters + 2) if fs.fat[c] == 0)
+                    p = fs.root / (where + 'Too big for the volume.bin')
+                    outcome = None
+                    try:
+                        with p.open('wb', buffering=0) as f:
+                            f.write(b'\x5a' * ((free + 4) * g.cs))
+                        outcome = 'written'
+                    except OSError as e:
+                        outcome = 'ENOSPC' if e.errno == errno.ENOSPC else repr(e)
+                    info = dict(fat_type=ft, free_clusters=free, directory=where or '/', outcome=outcome)
+                    ctx.case(('same-object', ft, where, free), True, 'same-object-recovery')
+                    if outcome != 'ENOSPC':
+                        ctx.violation('fs.enospc/wrong-outcome', f'writing {free + 4} clusters with {free} free: {outcome}', info)
+                        return
+                    try:
+                        p.unlink()                      # the object that created the file
+                    except Exception as e:              # noqa: BLE001
+                        ctx.violation('fs.enospc/recovery', f'unlink through the creating path object after ENOSPC raised {e!r}', info)
+                        return
+                    free_after = sum(1 for c in range(2, g.n_clusters + 2) if fs.fat[c] == 0)
+                    probs = fatspec.spec_wf(R, bytes(buf))
+                    if probs or free_after != free_before:
+                        ctx.violation('fs.enospc/recovery', f'{ft} {where or "/"}: a write of {free + 4} clusters into {free} free ones failed with ENOSPC and the file was unlinked '
+                                      f'through the path object that created it: {free_after} clusters free afterwards (before: {free_before}), structural check {probs[:3]}', info)
+                        return
+                    try:
+                        (fs.root / (where + 'fits now.bin')).write_bytes(b'k' * (free * g.cs))
+                    except Exception as e:              # noqa: BLE001
+                        ctx.violation('fs.enospc/recovery', f'after freeing the space a file of {free} clusters does not fit: {e!r}', info)
+                        return
+                finally:
+                    try:
+                        fs.close()
+                    except Exception:
+                        pass
+
+
 def run(ctx, build):
     model_correspondence(ctx)
     from nobodd.fs import FatFileSystem
     R = ctx.runner('Fat')
     rng = ctx.rng
+    same_object_recovery(ctx, R, rng, FatFileSystem)
+    if ctx.violations:
+        return
     combos = [('fat12', 0, False), ('fat16', 0, False), ('fat32', 0, True), ('fat32', 0, False),
               ('fat12', 300, False), ('fat16', 9, False), ('fat32', 200, True)]
     if not ctx.thorough and not ctx.widen:
